@@ -9,6 +9,7 @@ INVARIANT ImplBoundsExact
 INVARIANT ImplFeatRight
 INVARIANT ImplAnchorsRight
 INVARIANT LawBoundsOrdered
+INVARIANT LawTimeHasNoCeiling
 INVARIANT LawTimeOnlyBand
 INVARIANT LawBoundsFromTokens
 INVARIANT LawFeat
